@@ -26,6 +26,7 @@ def check(c: Check):
         'stream for an unterminated quote (the lexer error is kept and raised as TokenSyntaxError by the next '
         'consume; every handler of it converts to the instruction syntax error). Decides clauses a-d of DESIGN.md '
         'C09; not token boundaries, here-document bodies or positions.')
+    clause_j(c)
     clause_a(c)
     clause_b(c)
     clause_c(c)
@@ -778,3 +779,69 @@ def clause_i(c: Check):
                      'the token is unquoted: a soft-quoted "@[L]@" is then taken for the symbol L itself - a list is '
                      'spliced in instead of being the one string of its elements' % f.key.split(':')[-1], f.loc())
     c.floor('C09-i', 'paths of the string parsers that answer with a bare symbol reference', n, 2)
+
+
+# ---------------------------------------------------------------- j
+def clause_j(c: Check):
+    """TAB "one alphabet for symbol names": a name that `def` accepts can be referenced. `is_symbol_name` (the check
+    of a defined name) and the reference scanner of `symbol_syntax` must use the same character predicate. When the
+    scanner is written with a regular expression, the character classes of the expression (parsed with the regex
+    parser of the standard library - the pattern is data, nothing is matched) are compared with it: a class of ASCII
+    ranges only (`[0-9a-zA-Z_]`) is not `str.isalnum`, which accepts every Unicode letter and digit - `@[größe]@`
+    would be left as literal text although `def string größe` is accepted."""
+    ix, fo = c.ix, c.fo
+    m = ix.module('exactly_lib.symbol.symbol_syntax')
+    isn = ix.func('exactly_lib.symbol.symbol_syntax:is_symbol_name')
+    preds = {n.func.attr for n in ast.walk(isn.node) if isinstance(n, ast.Call) and isinstance(n.func, ast.Attribute)
+             and n.func.attr in ('isalnum', 'isalpha', 'isdigit', 'isidentifier', 'isascii')}
+    c.require(preds, 'C09-j: the character predicate of is_symbol_name not recognised')
+    unicode_names = 'isalnum' in preds and 'isascii' not in preds
+    import re as _re
+    try:
+        from re import _parser as _rp
+    except ImportError:   # Python < 3.11
+        import sre_parse as _rp
+    n_re = 0
+    for node in ast.walk(m.tree):
+        if not (isinstance(node, ast.Call) and dotted_name(node.func) in ('re.compile', 're.search', 're.match', 're.finditer', 're.fullmatch')):
+            continue
+        for s_ in ast.walk(node.args[0]) if node.args else []:
+            if not (isinstance(s_, ast.Constant) and isinstance(s_.value, str) and '[' in s_.value):
+                continue
+            n_re += 1
+            try:
+                parsed = _rp.parse(s_.value)
+            except Exception:
+                continue
+            ascii_only = []
+
+            def walk(items):
+                for op, av in items:
+                    if str(op) == 'IN':
+                        kinds = {str(k) for k, _ in av}
+                        if 'RANGE' in kinds and 'CATEGORY' not in kinds and 'NEGATE' not in kinds:
+                            ascii_only.append(s_.value)
+                    elif isinstance(av, tuple):
+                        for x in av:
+                            if hasattr(x, 'data'):
+                                walk(x.data)
+                            elif isinstance(x, list):
+                                for y in x:
+                                    if hasattr(y, 'data'):
+                                        walk(y.data)
+
+            walk(parsed.data)
+            if unicode_names:
+                c.expect(not ascii_only, 'C09-j', 'name-alphabet/regex@%d' % node.lineno,
+                         'symbol_syntax scans with the expression %r, whose character class is a list of ASCII ranges, while '
+                         'is_symbol_name accepts every str.isalnum character: a symbol whose name holds a non-ASCII letter '
+                         'can be defined but a reference to it is not recognised (left as literal text)' % s_.value,
+                         '%s:%d' % (m.relpath, node.lineno))
+    # the scanner's own predicate, when it is written with str predicates
+    scan = {n.func.attr for f in m.all_funcs if f is not isn for n in ast.walk(f.node)
+            if isinstance(n, ast.Call) and isinstance(n.func, ast.Attribute)
+            and n.func.attr in ('isalnum', 'isalpha', 'isdigit', 'isidentifier', 'isascii')}
+    if scan:
+        c.expect(scan == preds, 'C09-j', 'name-alphabet/predicates',
+                 'the reference scanner uses %s, is_symbol_name uses %s' % (sorted(scan), sorted(preds)), m.relpath)
+    c.require(scan or n_re, 'C09-j: neither a character predicate nor a regular expression found in the reference scanner')
